@@ -133,9 +133,10 @@ def add_glue_as_needed(*, _sys_modules_len_cache: list[int] = [0]) -> None:
                     RuntimeWarning,
                 )
         # Only update the length cache if we visited every module (rather
-        # than bailing out with an exception or skipping one that vanished)
-        if visited_all:
-            _sys_modules_len_cache[0] = len(module_names)
+        # than bailing out with an exception). If we had to skip one that
+        # vanished, make sure the next call scans again whatever the number
+        # of modules is by then.
+        _sys_modules_len_cache[0] = len(module_names) if visited_all else 0
 
 
 functools_singledispatch_wrapper = get_code(functools.singledispatch, "wrapper")
